@@ -27,7 +27,8 @@ const c18NumOperands = 35
 var c18OpNames = []string{"Add", "Sub", "Mul", "Sqr", "Quo", "FMA", "Sqrt", "Cmp", "Text", "Format", "Float64", "Int", "Rat", "Gob", "MarshalText", "Set", "Float",
 	// operations that read shared operands or constant arguments and write only to the goroutine's own receiver: whatever
 	// state the library keeps outside its arguments (tables, scratch, readers) is shared between the goroutines
-	"Parse", "ParseBinary", "GobRoundTrip", "SetRat", "SetInt", "SetFloat64", "SetFloat", "FormatWidth", "IntLong"}
+	"Parse", "ParseBinary", "GobRoundTrip", "SetRat", "SetInt", "SetFloat64", "SetFloat", "FormatWidth", "IntLong",
+	"FMAacc"} // the accumulation idiom a.FMA(x, y, a): the receiver is the addend (a temporary holds the product)
 
 // constant arguments of the writer-side jobs (built once per process, never modified)
 var c18Args struct {
@@ -124,6 +125,10 @@ func c18Exec(j c18Job, ops []*decimal.Decimal) string {
 			z.Sqrt(x)
 		case "Set":
 			z.Set(x)
+		case "FMAacc":
+			z.Set(u)
+			z.FMA(x, y, z)
+			z.FMA(y, x, z)
 		case "Parse":
 			if _, ok := z.SetString(c18Args.lits[j.u%len(c18Args.lits)]); !ok {
 				out = "rejected"
@@ -255,7 +260,7 @@ func c18Whole(c *hx.Ctx) {
 			}
 		}
 		switch name {
-		case "Int", "Rat", "FormatWidth", "Add", "Sub", "FMA": // (sums align the operands digit by digit: a 2^31-digit gap)
+		case "Int", "Rat", "FormatWidth", "Add", "Sub", "FMA", "FMAacc": // (sums align the operands digit by digit: a 2^31-digit gap)
 			for j.x >= extremeFrom && j.x < extremeTo {
 				j.x = r.Intn(len(ops))
 			}
